@@ -52,7 +52,7 @@ def synthetic(rng):
     nl = int(rng.integers(2, 5)) if three else 1
     ny, nx = int(rng.integers(2, 9)), int(rng.integers(2, 9))
     dx, dy = float(rng.uniform(1, 30)), float(rng.uniform(1, 30))
-    vclass = str(rng.choice(["serial", "random", "denormal", "huge", "tiny", "zeros", "float32", "negzero_nan_free"]))
+    vclass = str(rng.choice(["serial", "random", "denormal", "huge", "tiny", "zeros", "float32", "negzero_nan_free", "max"]))
     tskind = str(rng.choice(["str", "int", "int_hours", "labels", "descending"]))
     forcing = str(rng.choice(["ustar", "z0"]))
     hetero = bool(three and rng.random() < 0.5)
@@ -111,6 +111,8 @@ def synthetic(rng):
                     return rng.random(shape) * 5e-310 * rng.choice([-1, 1], size=shape)
                 if vclass == "huge":
                     return rng.normal(size=shape) * 1e300
+                if vclass == "max":   # finite values whose sum is not (the top of the double range)
+                    return np.where(rng.random(shape) < 0.5, 1e308, np.finfo(np.float64).max / 2) * rng.choice([1.0, 1.0, -1.0])
                 if vclass == "tiny":
                     return rng.normal(size=shape) * 1e-300
                 if vclass == "zeros":
